@@ -65,6 +65,12 @@ def encode(v):
         return {"__dict__": [[encode(k), encode(x)] for k, x in v.items()]}
     if isinstance(v, complex):
         return {"__complex__": [v.real, v.imag]}
+    tn = type(v).__name__
+    if tn == "Corr" and getattr(v, "N", None) == 1:
+        return {"__corr__": [None if x is None else float(x[0].value) for x in v.content],
+                "prange": encode(v.prange), "tag": encode(v.tag)}
+    if tn == "Obs":
+        return {"__obs__": float(v.value)}
     return {"__repr__": repr(v)}
 
 
@@ -85,6 +91,14 @@ def decode(v):
             return float(v["__float__"])
         if "__complex__" in v:
             return complex(*v["__complex__"])
+        if "__corr__" in v:
+            from contracts.corr import native_corr
+            c = native_corr(v["__corr__"], prange=decode(v.get("prange")))
+            c.tag = decode(v.get("tag"))
+            return c
+        if "__obs__" in v:
+            from contracts.corr import native_obs
+            return native_obs(v["__obs__"])
         raise CheckerError("cannot decode %r" % (v,))
     return v
 
@@ -180,6 +194,18 @@ def same_native(a, b, tol=0.0):
             return False
     if isinstance(a, range) or isinstance(b, range):
         return isinstance(a, range) and isinstance(b, range) and a == b
+    ta, tb_ = type(a).__name__, type(b).__name__
+    if ta in ("Corr", "Obs", "CObs") or tb_ in ("Corr", "Obs", "CObs"):
+        if ta != tb_:
+            return False
+        if ta == "Corr":
+            return a.T == b.T and a.N == b.N and same_native(a.prange, b.prange, tol) and same_native(a.tag, b.tag, tol) and \
+                all(same_native(x, y, tol) for x, y in zip(a.content, b.content))
+        if ta == "CObs":
+            return same_native(a.real, b.real, tol) and same_native(a.imag, b.imag, tol)
+        return a is b or (same_native(float(a.value), float(b.value), tol) and list(a.names) == list(b.names)
+                          and all(same_native(a.deltas[n], b.deltas[n], tol) for n in a.names if n in a.deltas)
+                          and all(same_native(a.idl[n], b.idl[n], tol) for n in a.names if n in a.idl))
     try:
         r = a == b
         return bool(r)
